@@ -10,6 +10,9 @@ Specification (all verdict-relevant knowledge is TLA+):
   spec/IsaGen.tla     case generator: Init picks a form (and the statement address for PC-dependent operands), each
                       step fixes the next operand to one member of its class set; a leaf = one assembler statement;
                       second state space SInit: one state per ordered pair of mnemonics (adjacency dimension)
+  spec/IsaAlias.tla   REGISTER-SYMBOL dimension (+ IsaAliasTab.tla, instantiated by Isa4004_Alias / IsaAvr_Alias /
+                      IsaMsp430_Alias): a case is a HISTORY - definition statements build a symbol table (operational
+                      Define / Eval, declarative Denotes on the program text), the machine statement reads it
   spec/Isa_Trace.tla  (V) explains recorded statements of golden programs with the tables
 
 (M) per CPU variant TLC explores the complete case graph and checks at every leaf UnitsTyped, DecodeInverts (the
@@ -37,6 +40,31 @@ Specification (all verdict-relevant knowledge is TLA+):
     6502-compatible base set: there asl inserts a NOP behind PLP and in front of SEC / CLC / CLD that directly follow
     ADC / SBC (usage cautions of the 740 family); Isa6502.tla `After` states exactly that, every other 65xx CPU is
     context free.
+(R) REGISTER-SYMBOL dimension (IsaAlias.tla; targets whose syntax has register symbols, doc/assembler-usage.md "Register
+    Symbols": 4004/4040, AVR, MSP430).  The manual: a register may be given a symbolic name with REG, EQU (=) or SET
+    (EVAL where SET is a machine instruction; :=), `myreg2 reg myreg` makes myreg2 denote the same register.  So a
+    machine statement whose register operand is written through a symbol is the same instruction as the statement
+    with the literal the symbol denotes.  Per CPU variant TLC explores: every form with a register field x every
+    register field position (MSP430: Rn, X(Rn), @Rn, @Rn+, source and destination) x EVERY register literal the table
+    lists for the field (all spellings: PC / SP / SR and R0 / R1 / R2, RA and R10, pairs R0R1 and R0P) x definition
+    scenario (REG, EQU, =, SET/EVAL, :=-redefinition, SET-redefinition, REG of a REG symbol, EQU of a SET symbol,
+    snapshot: a copy taken before the original is re-defined keeps the old register).  Where the table lists all
+    registers an instruction takes (AVR: LDI R16..R31, ADIW R24/26/28/30, MOVW even, MULSU R16..R23; 4004: register
+    vs. pair) a symbol for any OTHER register literal of the CPU is generated too and must be rejected with nothing
+    emitted (a masked register number would be "emitted truncated").  Each behaviour executes the definitions one
+    by one (state: program text + symbol table), the last step resolves the operand through the table; TLC checks
+    SymMeaning (table = declarative meaning of the text, at every state), PlanMeaning, Transparent (units = units of
+    the literal statement, the declarative decoder finds the denoted register) and UnknownIsError, and prints the
+    definitions + statement + expected units.  The harness writes the definition lines directly in front of the
+    statement (symbol names are made unique by TLC from the case's coordinates) and replays like (G).
+    quick: 4004/4040 every scenario for every (form, position, register); ATMEGA128 and the MSP430 sample rotate the
+    scenario over (form, position, register) so that every register and every form meets every scenario (~10,500
+    statements, 4 TLC runs of 4-8 s in the pool); thorough: every scenario everywhere, all CPU variants (109,500
+    statements, 5 runs, 14-48 s each).
+    WHY ADDED: a one-line change in codemsp.c DecodeReg (the register-symbol path no longer strips the internal mark
+    bit 16 that tells PC/SP/SR from R0/R1/R2, so `mysp reg sp` / `mov mysp,r7` assembles to 5107h = ADD instead of
+    4107h) compiled, passed the 201 tests and was NOT reported: every generated statement spelled its registers with
+    literals, the symbol path of DecodeReg was never taken.  Now: 169 mismatch groups, exit 1.
 (V) machine statements of 15 golden programs (stmt + emit events, CPU tracked through the CPU statements) are validated
     by TLC against the tables (a mnemonic of the table must be explained by one of its forms).  A rejection is
     reported as SPEC-DRIFT (table gap or defect), the verdict stays with (G).  Runs in the background of the TLC pool.
@@ -59,9 +87,14 @@ ISAs covered: see ISAS.  quick: K = 3, one seed-derived salt, 6502 + W65C02S (+ 
 sample subset (MOV / ADD.B / CMP[.B] + format II + jumps + emulated); thorough: K = 8, 4 salts, all CPU variants, all
 12 MSP430 format-I operations.  The evidence names the ISAs of the run; nothing outside the list is "passed".
 Measured (VERIF_JOBS=6, machine shared): quick 62 s (23 single-worker TLC runs in a pool of 6: 48 s; replay of
-~259,000 statements: 12 s).
+~259,000 statements: 12 s); with the register-symbol dimension 27 TLC runs, ~269,700 statements: same wall time
+within the noise of the shared machine (under load: TLC phase 101 / 106 / 110 / 128 s with it, 109 s without it; the
+four added runs cost ~25 CPU-seconds in the pool of 6, their replay ~1.5 s).
 
-NOT covered / not judged: number spellings other than decimal; register aliases beyond the tables; undocumented
+NOT covered / not judged: number spellings other than decimal; register aliases beyond the tables (AVR XL..ZH, MSP430
+R3); register symbols: forward references (the manual warns they become plain numbers), section-local symbols, a
+symbol name where a NUMBER is expected, lower/mixed-case spellings, the other operands at more than IsaGen's one
+representative value, MSP430 registers a field of the reduced table does not list; undocumented
 opcodes and assembler conveniences (NMOS 6502 JMP ($xxFF) guard, MSP430 0(Rn)->@Rn and constant-generator choice for
 65535 / 255, PIC omitted destination, OPTION/TRIS, BANKSEL, AVR CBR, automatic PCLATH fix-up); MSP430 full
 source x destination cross product (every mode x register appears against a register operand, two-extension-word
@@ -93,11 +126,18 @@ the 201 ctest tests, all were reported as VIOLATION:
       guard (inter-instruction state; MISSED before the adjacency dimension existed: ~1000 accepted statements per
       source never had the adjacency) -> 12 violations: 6502 and W65C02S, CLC / SEC / CLD on the line directly after
       ADC / SBC assemble to EA 00 instead of 18 / 38 / D8 (84 s).
+  register-symbol dimension (one scratch copy with both, ctest 201/201): codeavr.c DecodeReg symbol path
+      `RegDescr.Reg ^ (RegDescr.Reg == 31)` (a symbol for R31 encodes R30) -> 84 mismatch groups over all AVR forms
+      incl. ADIW / MOVW accepting the symbol where R31 must be rejected; code4004.c DecodeReg symbol path
+      `RegDescr.Reg ^ (RegDescr.Reg == 13)` -> 162 groups (INC ADD SUB LD XCH ISZ, RD and R13, every scenario), exit 1.
+      The seeded codemsp.c change above: 169 groups (every MSP430 mode, PC / SP / SR, every scenario), exit 1.
+      Binding of the model itself: Define without replacing the old entry of a re-defined name makes TLC report
+      SymMeaning violated (REDEF / := / SNAPSHOT scenarios).
 Binding of (V): truncating the recorded units of a JMP or flipping opcode bit 0 of an MVI event makes Isa_Trace reject.
 """
 import os
 
-from vlib import aslrun, build, isa, tlc
+from vlib import aslrun, build, isa, isa_alias, tlc
 from vlib.common import NCPU, CheckError, Phase, log, pmap, rng, seed
 from vlib.report import Report
 
@@ -120,6 +160,12 @@ ISAS = [
     isa.IsaCfg("6800", "Isa6800_Gen", [("6800", "6800")]),
 ]
 NOT_COVERED = []
+# register-symbol dimension: targets whose assembler syntax has register symbols (doc/assembler-usage.md "Register
+# Symbols") among the modelled ISAs -> TLA+ module (spec/IsaAlias.tla instantiated on the ISA table)
+ALIAS = {"4004/4040": "Isa4004_Alias", "AVR": "IsaAvr_Alias", "MSP430": "IsaMsp430_Alias"}
+# quick tier: CPU variants whose case space takes every definition scenario for every (form, position, register);
+# the others rotate the scenario (IsaAlias.tla ScenMode); thorough: every scenario everywhere
+ALIAS_ALL_QUICK = ("4004", "4040")
 
 
 GROUPS = {}
@@ -146,6 +192,8 @@ def key_of(cfg, cpu, case, kind, em=None):
             # operand 1 aliases a value 0..31 once everything above bit 8 is dropped
             "op1_low9_lt32": bool(case["ops"]) and isinstance(case["ops"][0], int) and 0 <= case["ops"][0] % 512 < 32,
             "forced": a1[:1] if a1[:1] in ("<", ">") else "", "prev": case.get("prev", ""),
+            # register-symbol dimension: definition scenario and the register literal the symbol denotes
+            "alias": case.get("scen", ""), "reg": case.get("reg", ""),
             "dev": deviation(case, em)}
 
 
@@ -164,6 +212,9 @@ def judge(rep, cfg, cpu, case, src, line, rc, em, errs, sig=None, timeout=False,
     at = (" at %d" % case["pc"]) if case["pc"] >= 0 else ""
     if case.get("prev"):
         at += " on the line directly after a %s statement" % case["prev"]
+    if case.get("pre"):
+        at += " after the definitions [%s] (register symbol for %s)" % (
+            "; ".join(" ".join(isa_alias.def_text(d).split("\t")) for d in case["pre"]), case.get("reg"))
     if timeout or sig is not None:
         rep.violation("%s %s: assembler crashed/hung on '%s'" % (cfg.name, cpu, stmt), case=case,
                       files={"a.asm": src}, key=key_of(cfg, cpu, case, "crash"))
@@ -241,8 +292,9 @@ CHUNK = 40
 ACC_CHUNK = 1000     # accepted-expected statements per source (small enough for the smallest program memory)
 
 
-def replay_cpu(rep, bld, cfg, cpu, aslcpu, cases):
-    """Accepted-expected statements: sources of ACC_CHUNK statements.  Rejected-expected / convention-zone statements: with hooks they
+def replay_cpu(rep, bld, cfg, cpu, aslcpu, cases, srcmod=isa):
+    """srcmod: renderer (isa: one statement per case; isa_alias: definition statements + the statement).
+    Accepted-expected statements: sources of ACC_CHUNK statements.  Rejected-expected / convention-zone statements: with hooks they
     are first screened in chunks of CHUNK statements per run (diag/emit events are per line); every statement
     that does not show exactly the expected picture there, and all of them without hooks, is assembled alone
     and judged on that run."""
@@ -257,11 +309,11 @@ def replay_cpu(rep, bld, cfg, cpu, aslcpu, cases):
         groups = accgroups + [oth[i:i + CHUNK] for i in range(0, len(oth), CHUNK)]
         jobs = []
         for g in groups:
-            src, where = isa.batch_source(cfg, aslcpu, g)
+            src, where = srcmod.batch_source(cfg, aslcpu, g)
             jobs.append({"sources": {"a.asm": src}, "opts": ["-q"], "events": "emit,diag", "timeout": 120})
         results = _many(bld, jobs)
         for gi, (g, j, res) in enumerate(zip(groups, jobs, results)):
-            src, where = isa.batch_source(cfg, aslcpu, g)
+            src, where = srcmod.batch_source(cfg, aslcpu, g)
             if res.timeout or res.sig is not None or res.trace is None:
                 singles += g
                 continue
@@ -293,7 +345,7 @@ def replay_cpu(rep, bld, cfg, cpu, aslcpu, cases):
         singles = list(cases)
     jobs = []
     for c in singles:
-        src, ln = isa.single_source(cfg, aslcpu, c)
+        src, ln = srcmod.single_source(cfg, aslcpu, c)
         jobs.append(({"sources": {"a.asm": src}, "opts": ["-q"], "events": "emit,diag" if bld.hooks else None}, ln))
     results = _many(bld, [j for (j, ln) in jobs])
     for c, (j, ln), res in zip(singles, jobs, results):
@@ -411,11 +463,16 @@ def main(tier):
     # adjacency dimension: every ordered pair of mnemonics on consecutive lines (one run per CPU variant)
     seqtodo = [(cfg, cpu, aslcpu) for cfg in ISAS for (cpu, aslcpu) in list(cfg.cpus_for(tier)) + list(cfg.seq_only)]
     # all TLC generator runs (single-worker JVMs) share one pool; longest first
-    tasks = [("gen", t) for t in todo] + [("seq", t) for t in seqtodo]
+    # register-symbol dimension: one run per CPU variant of the targets that have register symbols
+    aliastodo = [(cfg, cpu, aslcpu, "all" if tier != "quick" or cpu in ALIAS_ALL_QUICK else "rotate")
+                 for cfg in ISAS if cfg.name in ALIAS for (cpu, aslcpu) in cfg.cpus_for(tier)]
+    tasks = [("gen", t) for t in todo] + [("seq", t) for t in seqtodo] + [("alias", t) for t in aliastodo]
     order = sorted(range(len(tasks)), key=lambda i: -WEIGHT.get(tasks[i][1][0].name, 1))
 
     def tlc_task(i):
         kind, t = tasks[i]
+        if kind == "alias":
+            return isa_alias.gen_alias(t[0], ALIAS[t[0].name], t[1], salts[0], t[3])
         return isa.gen_cases(t[0], t[1], k, t[4]) if kind == "gen" else isa.gen_seq(t[0], t[1], salts[0])
     vfut = None
     if bld.hooks:
@@ -427,10 +484,12 @@ def main(tier):
             return execs, names, tracecheck.validate("Isa_Trace", execs, cfg="Isa_Trace.cfg", timeout=900)
         vpool = concurrent.futures.ThreadPoolExecutor(max_workers=1)
         vfut = vpool.submit(corpus_validate)
-    with Phase("TLC: %d case generator runs + %d adjacency generator runs" % (len(todo), len(seqtodo))):
+    with Phase("TLC: %d case generator runs + %d adjacency generator runs + %d register-symbol generator runs"
+               % (len(todo), len(seqtodo), len(aliastodo))):
         done = dict(zip(order, pmap(tlc_task, order, workers=min(6, NCPU))))
     gens = [done[i] for i in range(len(todo))]
     seqs = [done[len(todo) + i] for i in range(len(seqtodo))]
+    aliases = [done[len(todo) + len(seqtodo) + i] for i in range(len(aliastodo))]
     for (cfg, cpu, aslcpu, si, salt), (r, cases) in zip(todo, gens):
         name = "%s(%s,K=%d,Salt=%d)" % (cfg.module, cpu, k, salt)
         with Phase("replay " + name):
@@ -452,6 +511,19 @@ def main(tier):
             rep.model(name, r)
             ns = replay_seq(rep, bld, cfg, cpu, aslcpu, pairs)
             rep.part(name, ordered_mnemonic_pairs=len(pairs), rerun_as_pair=ns)
+    # register-symbol dimension -------------------------------------------------------------------------------
+    for (cfg, cpu, aslcpu, mode), (r, cases) in zip(aliastodo, aliases):
+        name = "%s(%s,scenarios=%s) register symbols" % (ALIAS[cfg.name], cpu, mode)
+        with Phase("replay " + name):
+            rep.model(name, r)
+            na, no, ns = replay_cpu(rep, bld, cfg, cpu, aslcpu, cases, srcmod=isa_alias)
+            rep.part(name, forms=len({c["id"].split(" <")[0] for c in cases}), statements=len(cases),
+                     registers=sorted({c["reg"] for c in cases}), scenarios=sorted({c["scen"] for c in cases}),
+                     expected_units=na, expected_reject=no, assembled_alone=ns)
+            if cpu == cfg.cpus[0][0]:
+                for c in cases[:1] + [c for c in cases if c["exp"] == "reject"][:1]:
+                    rep.sample({"isa": cfg.name, "cpu": cpu, "definitions": [isa_alias.def_text(d) for d in c["pre"]],
+                                "statement": isa.stmt_text(c).strip(), "expected": c["exp"], "units": c["units"]})
     # (V) golden corpus statements explained by the tables (started before the generator runs) ---------------------
     if vfut is not None:
         with Phase("corpus statements vs tables (waiting for the background run)"):
@@ -479,7 +551,11 @@ def main(tier):
         rule="cases = every leaf of the Isa*_Gen graph: every form of the table x operand classes {0, 1, limits, "
              "limits+-1, convention-zone limits +-1, midpoint, bit patterns, 2 seed-chosen interior values} x (for "
              "PC-relative/page operands) each listed statement address x every distance within K of both "
-             "displacement limits; distinct = distinct (ISA, CPU, statement text, address)",
+             "displacement limits; + every ordered pair of mnemonics on consecutive lines; + (4004/4040, AVR, MSP430) "
+             "every leaf of the Isa*_Alias graph: every form with a register field x field position x every register "
+             "literal of the table (where the table is complete: also the registers the form does not take) x "
+             "definition scenario of the register symbol the operand is written with; "
+             "distinct = distinct (ISA, CPU, statement text, address)",
         exhaustive=True)
 
 
